@@ -525,3 +525,121 @@ def c13(sess):
                                         "step": i})
         prev = obs
     return out
+
+
+def c17(sess):
+    """Rerun: admission and immediate effect on the session's own history; convergence on a twin simulation."""
+    from harness import findings, sim
+    out = []
+    prev = None
+    for i, (op, obs) in enumerate(sess.trace):
+        if prev is not None and op[0] == "rerun":
+            pst, st = prev["state"]["state"], obs["state"]["state"]
+            if obs["raised"] is None:
+                if pst["status"] not in COMPLETED:
+                    out.append({"what": "rerun accepted while the workflow was %s" % pst["status"], "step": i})
+                missing = [q for q in op[1] if ("%s__r%s" % (q[0], q[1])) not in pst["tasks"]]
+                if missing:
+                    out.append({"what": "rerun accepted for task executions that do not exist: %r" % missing, "step": i})
+                if st["status"] != "resuming" or obs["state"]["output"] is not None:
+                    out.append({"what": "accepted rerun left status %s / output %r" % (st["status"], obs["state"]["output"]),
+                                "step": i})
+                ready = [s for s in st["staged"] if s["ready"] and not s.get("completed")]
+                act = [r for r in st["sequence"] if r.get("status") in ACTIVE + ("paused", "pending")]
+                if not ready and not act:
+                    out.append({"what": "accepted rerun left the workflow resuming with nothing to do", "step": i})
+            else:
+                if engine.dumps_sorted(prev["state"]) != engine.dumps_sorted(obs["state"]):
+                    d = engine.first_difference(prev["state"], obs["state"])
+                    out.append({"what": "refused rerun (%s) changed the state at %s" % (obs["raised"][0], d[0] if d else "?"),
+                                "step": i})
+        prev = obs
+    # ---- convergence twin
+    fam = sess.fam
+    if fam.get("twin"):
+        oracle = _case_oracle(sess)
+        base = _mk_sim(sess.definition, sess.inputs, oracle, 5)
+        feats = {"base_failed": False, "rerun_accepted": False, "converged": False}
+        try:
+            base.run()
+            bf = base.final()
+            if bf["status"] == "failed" and base.s.trace[-1][1]["state"]["state"]["sequence"]:
+                feats["base_failed"] = True
+                abended = set((k[0], k[2]) for k in base.executed if k[4] in ABENDED + ("canceled",))
+                bad = set()
+
+                class Fixed(object):
+                    """Outcomes of the clean twin and of the continuation: as in the failed run, except that the
+                    actions the rerun re-executes succeed."""
+                    def outcome(self, key, attempt):
+                        stt, res = oracle.outcome(key, 0)
+                        if (key[0], key[2]) in bad:
+                            return ("succeeded", res)
+                        return (stt, res)
+                obs = base.s.rerun([])
+                if obs["raised"] is None:
+                    st_after = obs["state"]["state"]
+                    rerun_ids = set(st_after["sequence"][k]["id"] for k in (st_after.get("reruns") or [[]])[-1]
+                                    if k < len(st_after["sequence"]))
+                    bad.update(a for a in abended if a[0] in rerun_ids)
+                if obs["raised"] is None:
+                    feats["rerun_accepted"] = True
+                    cont = sim.Sim(base.s, Fixed(), 5)
+                    cont.finish = dict(base.finish)
+                    cont.time = base.time
+                    # continue: same loop as run() without the boot
+                    cont_run(cont)
+                    rf = cont.final()
+                    clean = _mk_sim(sess.definition, sess.inputs, Fixed(), 5)
+                    try:
+                        clean.run()
+                        cf = clean.final()
+                    finally:
+                        clean.s.close()
+                    ops = [o for o, _ in base.s.trace]
+                    known = None
+                    if findings.trig_rerun_of_command(base.s):
+                        known = "D8"
+                    elif findings.trig_empty_rerun(base.s):
+                        known = "D9"
+                    elif findings.trig_rerun_of_transitioned(base.s):
+                        known = "D21"
+                    if rf["status"] != cf["status"]:
+                        v = {"what": "after the default rerun with all re-executed actions succeeding the workflow ends %s; "
+                                     "the clean run ends %s" % (rf["status"], cf["status"]), "step": len(ops) - 1, "ops": ops}
+                        if known:
+                            v["known"] = known
+                        out.append(v)
+                    elif rf["status"] == "succeeded" and rf["output"] != cf["output"]:
+                        v = {"what": "output after rerun %r differs from the clean run %r" % (rf["output"], cf["output"]),
+                             "step": len(ops) - 1, "ops": ops}
+                        if known:
+                            v["known"] = known
+                        out.append(v)
+                    else:
+                        feats["converged"] = True
+        finally:
+            base.s.close()
+        sess.rel_features = feats
+    return out
+
+
+def cont_run(sm):
+    """Continue a simulation after a rerun (no boot)."""
+    s = sm.s
+    idle = 0
+    while sm.events < sm.max_events:
+        sm._poll()
+        if not s.inflight:
+            idle += 1
+            if idle >= 2 or s.status() in COMPLETED:
+                break
+            continue
+        idle = 0
+        key = min(s.inflight, key=lambda k: (sm.finish.get(k, 0), repr(k)))
+        sm.time = max(sm.time, sm.finish.get(key, 0))
+        stt, res = sm.oracle.outcome(key, s.inflight[key])
+        s.report(key, stt, res)
+        sm.executed.append((key[0], key[1], key[2], s.inflight.get(key, 0), stt))
+        sm.events += 1
+    s.render()
